@@ -254,7 +254,7 @@ def gen_key(rnd, lzx):
 
 def run(ctx):
     rnd = ctx.rnd
-    lzx = gen.leading_zero_x_scalars()
+    lzx = gen.leading_zero_x_scalars() + gen.leading_zero_y_scalars()
     # hash clause first, WITHOUT probes (it calls the functions directly)
     n = 0
     top = 1024
